@@ -42,7 +42,16 @@ def check(run):
         extra = ["1.0 ||", ">=", "[1.0", "~>"]
         if e == "pypi":   # the identity operator compares text: it must see the trimmed text
             extra += ["===" + w for w in wit[:6]] + ["===" + wit[0] + ",>=" + wit[1]]
-        for t in rnd.sample(rs, min(nr, len(rs))) + extra:
+        # ranges with internal spaces: a blank after every operator, blanks around commas, doubled blanks (the parser
+        # decides which spellings it accepts; an accepted one must keep its text)
+        import re
+        spaced = []
+        for t in rnd.sample(rs, min(nr // 2, len(rs))):
+            spaced.append(re.sub(r"(>=|<=|!=|==|~>|~=|\^|~|>|<|=)(?=[^ =<>~!])", r"\1 ", t))
+            spaced.append(t.replace(",", ", ") if ", " not in t else t.replace(", ", " , "))
+            spaced.append(t.replace(" ", "  "))
+        spaced = [x for x in dict.fromkeys(spaced) if x not in set(rs)]
+        for t in rnd.sample(rs, min(nr, len(rs))) + extra + spaced:
             jobs.append({"k": "roundtrip", "eco": e, "kind": "r", "text": t, "witness": wit, "pads": rnd.sample(nonempty, max(4, npad // 2))})
         # every padding pair at least once per ecosystem, on one version and one range
         if not quick:
